@@ -27,7 +27,7 @@ STO_FEATS = dict(sto_eff=[1.0, 0.9, 1.25], sto_caps=1, sto_costs=1, sto_inflow=1
 
 
 # the storage on its own, coarser grid (rates constant inside its steps; an incomplete last step is not part of its life time)
-STO_FREQ = {"4x6h": dict(freq=["12h"]), "5xh": dict(freq=["2h"]), "8x6h": dict(freq=["12h", "d"])}
+STO_FREQ = {"4x6h": dict(freq=["12h"]), "5xh": dict(freq=["2h"]), "8x6h": dict(freq=["12h", "d"]), "12xh": dict(freq=["2h", "3h"], sto_mip=[4.0, 6.0, 12.0])}
 
 
 def price_words(T, tier):
@@ -43,7 +43,7 @@ def price_words(T, tier):
 
 def make_gen(tier):
     def gen(ch):
-        gname = ch.pick("grid", ["4x6h", "5xh", "8x6h", "3xd_spring", "4x6h_d", "12h_partial", "3xd_autumn", "3xMS", "4xd_autumn"])
+        gname = ch.pick("grid", ["4x6h", "5xh", "8x6h", "3xd_spring", "4x6h_d", "12h_partial", "3xd_autumn", "3xMS", "4xd_autumn", "12xh"])
         gj = dict(S.GRIDS[gname])
         g = Grid.from_json(gj)
         T = g.T
@@ -81,9 +81,28 @@ def make_gen(tier):
     return gen
 
 
+def make_gen_coarse(tier):
+    """storage on its own coarser grid with a maximum holding duration of a few of ITS steps (hourly grid of twelve steps):
+    grid, frequency and duration are free, one further deviation of the storage menu"""
+    def gen(ch):
+        gj = dict(S.GRIDS["12xh"])
+        g = Grid.from_json(gj)
+        T = g.T
+        w = ch.free("pword", price_words(5, tier))
+        prices = dict(p=[w[i % len(w)] for i in range(T)], q=S.price_pattern("rev", T), ec=S.price_pattern("ec", T))
+        sto = S.gen_storage(ch, g, "sto", ["n1"], dict(sto_eff=[1.0, 0.9], sto_levels=1, sto_inflow=1, window=1))
+        sto["freq"] = ch.free("sto.freq", ["2h", "3h"])
+        sto["max_store_duration"] = ch.free("sto.max_store_duration", [4.0, 6.0, 3.0])
+        assets = [dict(type="SimpleContract", name="mkt", nodes=["n1"], price="p", min_cap=-5.0, max_cap=5.0), sto]
+        if ch.free("sto.pos", ["last", "first"]) == "first":
+            assets.reverse()
+        return S.finish(gj, assets, prices)
+    return gen
+
+
 def build_cases(tier):
     K = 2 if tier == "quick" else 3
-    cases, stats = merge_cases(family("storage", make_gen(tier), K))
+    cases, stats = merge_cases(family("storage", make_gen(tier), K), family("coarse_duration", make_gen_coarse(tier), K - 1))
     stats["bound"] = dict(K=K, price_words=len(price_words(5, tier)))
     return cases, stats
 
